@@ -309,6 +309,7 @@ func runC14(cfg *vh.Config) error {
 	for i := range bundles {
 		bundles[i] = genBundle(rB)
 	}
+	bundles[0] = collisionBundle()
 	type bres struct{ Runs []runObs }
 	all := parallel(nB, "bundle", caseNo,
 		func(i int) any { return map[string]any{"files": bundles[i].Content, "packages": bundles[i].Packages} },
@@ -415,6 +416,96 @@ func runC14(cfg *vh.Config) error {
 		}
 		if bi < 3 {
 			res.Sample(map[string]any{"stream": "bundle", "packages": b.Packages, "files": len(b.Content), "configs": K, "first_config": runs[1].Config}, 3)
+		}
+		caseNo++
+	}
+
+	// ---- stream: printing one descriptor many times. protobuf ranges over extension fields and map
+	// entries in a random order per call, so repeated printing explores those orders directly.
+	// (a) a descriptor without source info whose message/service/method carry extensions that sit
+	// at the same index of different files (finding 28); (b) every file of every bundle above;
+	// (c) a bundle with a hand-written .proto source using several option spellings.
+	{
+		reps := cfg.Scale(64, 400)
+		type printJob struct {
+			Name string
+			F    protoreflect.FileDescriptor
+		}
+		var jobs []printJob
+		if fd, err := tieDescriptor(); err != nil {
+			res.Fail(vh.Failure{Case: caseNo, Stream: "print", Sig: "C14 tie descriptor cannot be built (harness)", Clause: "harness expectation", Input: "tieDescriptor", Got: err.Error()})
+		} else {
+			jobs = append(jobs, printJob{"hand-built descriptor tie/v1/tie.proto: message with (j5.ext.v1.psm), (buf.validate.message), (j5.list.v1.message), (j5.list.v1.list_request), (j5.ext.v1.message); service with (j5.ext.v1.service), (j5.messaging.v1.service), (google.api.default_host), (google.api.oauth_scopes); method with (google.api.http), (j5.ext.v1.method), (google.api.method_signature)", fd})
+		}
+		psb := protoSourceBundle()
+		pr := runConfig(psb, cfg.Seed, 0)
+		for _, pkg := range psb.Packages {
+			if et, bad := pr.Errs[pkg]; bad {
+				res.Fail(vh.Failure{Case: caseNo, Stream: "print", Sig: "C14 proto-source bundle does not compile: " + errClass(et), Clause: "harness expectation", Input: psb.Content, Got: et})
+			}
+			for _, f := range pr.Raw[pkg] {
+				jobs = append(jobs, printJob{"bundle with a .proto source: " + f.Path(), f})
+			}
+		}
+		for bi, b := range bundles {
+			for _, pkg := range b.Packages {
+				for _, f := range all[bi].Runs[0].Raw[pkg] {
+					jobs = append(jobs, printJob{fmt.Sprintf("bundle %d: %s", bi, f.Path()), f})
+				}
+			}
+		}
+		type printOut struct {
+			First string
+			Diff  string
+			Cls   string
+			Pan   string
+		}
+		outs := parallel(len(jobs), "print", caseNo,
+			func(i int) any { return jobs[i].Name },
+			func(i int) printOut {
+				var o printOut
+				for k := 0; k < reps; k++ {
+					txt, err, pan := safePrint(jobs[i].F)
+					if pan != nil || err != nil {
+						o.Pan = fmt.Sprintf("err=%v panic=%v", err, pan)
+						return o
+					}
+					if k == 0 {
+						o.First = txt
+					} else if txt != o.First && o.Diff == "" {
+						o.Cls, o.Diff = firstDiffClass(o.First, txt)
+						o.Diff = fmt.Sprintf("print %d of %d: %s", k+1, reps, o.Diff)
+					}
+				}
+				return o
+			})
+		for i, o := range outs {
+			res.Count("print_job")
+			in := map[string]any{"descriptor": jobs[i].Name, "prints": reps}
+			if i == 0 {
+				in["printed_once"] = o.First
+			}
+			if o.Pan != "" {
+				res.Fail(vh.Failure{Case: caseNo, Stream: "print", Sig: "C14 printer fails: " + errClass(o.Pan), Clause: "printed text", Input: in, Got: o.Pan})
+			} else if o.Diff != "" {
+				res.Fail(vh.Failure{Case: caseNo, Stream: "print", Sig: "C14 printing the same descriptor repeatedly gives different text: " + o.Cls, Clause: "byte-identical printed .proto text", Input: in, Got: o.Diff})
+			}
+			// correspondence: the option blocks of the tie descriptor and of the .proto-source files
+			if o.First != "" && (i == 0 || strings.HasPrefix(jobs[i].Name, "bundle with a .proto source")) {
+				for _, ob := range optionBlocks(o.First) {
+					sorted := append([]string{}, ob.Names...)
+					sort.Sort(sort.Reverse(sort.StringSlice(sorted)))
+					var pairs []string
+					for _, n := range sorted {
+						pairs = append(pairs, fmt.Sprintf("(%q, %q)", extOfPrinted(n), n))
+					}
+					if strings.HasSuffix(jobs[i].Name, ".proto") && !strings.HasSuffix(jobs[i].Name, ".j5s.proto") && i != 0 {
+						continue // options of a parsed .proto carry source lines: printed in source order, not modelled
+					}
+					addCase(fmt.Sprintf("COptions %s [%s] %s", b2(ob.FieldLike), strings.Join(pairs, "; "), coqStrList(ob.Names)), "print", in, ob.Names)
+					res.Count("case_options")
+				}
+			}
 		}
 		caseNo++
 	}
